@@ -19,11 +19,14 @@ pub enum Op {
     Frag { w: u64, seed: u64, n: u64 },
     /// everything on the scenario's disk disappears (cleaned build dir, evicted cache, new machine)
     FsWipe,
+    /// one file on the scenario's disk is cut short at a PRNG-chosen length: what a writer that was
+    /// killed half-way (or a torn / lost write) leaves behind
+    FsTear { seed: u64 },
 }
 
 impl Op {
     pub fn is_perturbation(&self) -> bool {
-        matches!(self, Op::Clock { .. } | Op::Pid { .. } | Op::Frag { .. } | Op::FsWipe)
+        matches!(self, Op::Clock { .. } | Op::Pid { .. } | Op::Frag { .. } | Op::FsWipe | Op::FsTear { .. })
     }
 }
 
@@ -71,6 +74,37 @@ impl Sandbox {
                 }
             }
         }
+    }
+}
+
+impl Sandbox {
+    fn files(dir: &std::path::Path, out: &mut Vec<std::path::PathBuf>) {
+        if let Ok(rd) = std::fs::read_dir(dir) {
+            let mut es: Vec<std::path::PathBuf> = rd.flatten().map(|e| e.path()).collect();
+            es.sort();
+            for p in es {
+                if p.is_dir() {
+                    Self::files(&p, out);
+                } else {
+                    out.push(p);
+                }
+            }
+        }
+    }
+
+    /// Truncate one regular file (chosen by `seed` from the sorted listing) to a fraction of its
+    /// length. Returns true if there was a file to tear.
+    pub fn tear(&self, seed: u64) -> bool {
+        let mut fs = vec![];
+        Self::files(&self.dir, &mut fs);
+        if fs.is_empty() {
+            return false;
+        }
+        let mut r = crate::prng::Rng::new(seed);
+        let f = &fs[r.usize(fs.len())];
+        let len = std::fs::metadata(f).map(|m| m.len()).unwrap_or(0);
+        let new_len = if len == 0 || r.chance(1, 3) { 0 } else { r.below(len) };
+        std::fs::OpenOptions::new().write(true).open(f).and_then(|fh| fh.set_len(new_len)).is_ok()
     }
 }
 
@@ -123,7 +157,7 @@ pub fn apply(p: &mut Proc, inputs: &[String], op: &Op) -> HResult<Option<(u64, S
         Op::Clock { s, ns } => p.set_clock(*s, *ns).map(|_| None),
         Op::Pid { pid } => p.set_pid(*pid).map(|_| None),
         Op::Frag { w, seed, n } => p.frag(*w, *seed, *n).map(|_| None),
-        Op::FsWipe => Ok(None), // scheduler-side: handled by the executor
+        Op::FsWipe | Op::FsTear { .. } => Ok(None), // scheduler-side: handled by the executor
     }
 }
 
@@ -141,6 +175,10 @@ pub fn execute(sc: &Scenario) -> HResult<Execution> {
         for (oi, op) in world.ops.iter().enumerate() {
             if matches!(op, Op::FsWipe) {
                 sandbox.wipe();
+                continue;
+            }
+            if let Op::FsTear { seed } = op {
+                sandbox.tear(*seed);
                 continue;
             }
             if let Some((fp, out)) = apply(&mut p, &sc.inputs, op)? {
@@ -197,6 +235,7 @@ fn op_to_json(op: &Op) -> J {
             .set("seed", J::s(format!("{seed}")))
             .set("n", J::i(*n)),
         Op::FsWipe => J::obj().set("op", J::s("fs_wipe")),
+        Op::FsTear { seed } => J::obj().set("op", J::s("fs_tear")).set("seed", J::s(format!("{seed}"))),
     }
 }
 
@@ -216,6 +255,7 @@ fn op_from_json(j: &J) -> Result<Op, String> {
         "clock" => Op::Clock { s: num("s")? as i64, ns: num("ns")? as i64 },
         "pid" => Op::Pid { pid: num("pid")? as i64 },
         "fs_wipe" => Op::FsWipe,
+        "fs_tear" => Op::FsTear { seed: num("seed")? as u64 },
         "frag" => Op::Frag { w: num("w")? as u64, seed: num("seed")? as u64, n: num("n")? as u64 },
         other => return Err(format!("unknown op {other}")),
     })
